@@ -407,14 +407,17 @@ def evaluate(impl, exe, cases):
     return findings, impl_all
 
 
-def shrink(impl, exe, f, budget=40):
+def shrink(impl, exe, f, budget=40, pid=None, known=()):
     """Delta-debugging on the op list of the failing case: cut after the failing op, try the
     failing op alone, then remove chunks of halving size (all candidates of a round run in
     one batch through implementation and model)."""
     comp, tag = f.case.component, f.case.tag
 
     def same(x):
-        return x.kind == f.kind
+        # same kind of finding, and (for monitor violations) not one of the listed known findings
+        if x.kind != f.kind:
+            return False
+        return not (pid and x.kind == "monitor" and match_known(pid, x, known))
 
     def first_fail(cands):
         fs, _ = evaluate(impl, exe, cands)
@@ -599,7 +602,8 @@ def check(pid, tier, seed):
             # a persistent-state consequence of a known finding that fired EARLIER IN THE SAME CASE:
             # same verdict text pattern, later op (a different verdict is still reported as new)
             for kk in fired.get(id(f.case), []):
-                if kk.get("verdict_re") and re.search(kk["verdict_re"], f.verdict):
+                if (kk.get("verdict_re") and re.search(kk["verdict_re"], f.verdict)) or \
+                        (kk.get("consequence_verdict_re") and re.search(kk["consequence_verdict_re"], f.verdict)):
                     k = kk
                     break
         if k:
@@ -614,7 +618,7 @@ def check(pid, tier, seed):
         lines.append("KNOWN-FINDING: property=%s %s: %s [e.g. %s]" % (pid, kid, k["what"], f.summary()))
     violations = 0
     if new_mon:
-        f = shrink(impl, exe, new_mon[0])
+        f = shrink(impl, exe, new_mon[0], pid=pid, known=known)
         p = write_replay(pid, {"property": pid, "kind": "failing-input", "component": f.case.component,
                                "ops": f.case.ops, "failing_op": f.op, "impl": f.impl, "model": f.model,
                                "verdict": f.verdict, "seed": seed, "tier": tier,
